@@ -101,7 +101,28 @@ void mpq_ILLfct_set_status_values(mpq_lpinfo *lp, int a, int b, int c, int d)
 { lp->basisstat.optimal = nondet_bool(); lp->basisstat.primal_infeasible = nondet_bool(); lp->basisstat.dual_unbounded = nondet_bool(); lp->basisstat.primal_unbounded = nondet_bool(); lp->basisstat.primal_feasible = nondet_bool(); lp->basisstat.dual_feasible = nondet_bool(); lp->basisstat.dual_infeasible = nondet_bool(); }
 int mpq_QSgrab_cache(mpq_QSdata *p, int st) { return nondet_int(); }
 
-#ifdef FN_basis_status_leak
+#ifdef FN_output_copy
+/* C01/C02: optimal_output / infeasible_output (static, exact.c): the vectors handed to the caller are entry-by-entry
+ * copies of the vectors that passed the exact test, over their whole length (fixed length 2 here: size-header arrays). */
+void __CPROVER_file_local_exact_c_optimal_output(mpq_QSdata *p, mpq_t *const x, mpq_t *const y, mpq_t *x_mpq, mpq_t *y_mpq);
+void __CPROVER_file_local_exact_c_infeasible_output(mpq_QSdata *p, mpq_t *const y, mpq_t *y_mpq);
+void harness(void)
+{
+	mpq_QSdata *p = qsv_alloc(sizeof *p);
+	mpq_t *x = qsv_numarray(2), *y = qsv_numarray(2), *xq = qsv_numarray(2), *yq = qsv_numarray(2);
+	int i, xv[2], yv[2]; IN_BOOL(opt); IN_BOOL(want_x); IN_BOOL(want_y);
+	p->simplex_display = nondet_int();
+	for (i = 0; i < 2; i++) { xv[i] = nondet_int(); yv[i] = nondet_int(); qsv_setnum(xq[i], xv[i]); qsv_setnum(yq[i], yv[i]); qsv_setnum(x[i], nondet_int()); qsv_setnum(y[i], nondet_int()); }
+	if (opt) __CPROVER_file_local_exact_c_optimal_output(p, want_x ? x : 0, want_y ? y : 0, xq, yq);
+	else __CPROVER_file_local_exact_c_infeasible_output(p, want_y ? y : 0, yq);
+	for (i = 0; i < 2; i++) {
+		if (want_y) ASSERT(NUMV(y[i]) == yv[i], "C01/C02: every entry of the row multipliers handed to the caller is the certified one (zero entries included)");
+		if (opt && want_x) ASSERT(NUMV(x[i]) == xv[i], "C01: every entry of the primal vector handed to the caller is the certified one");
+		ASSERT(NUMV(xq[i]) == xv[i] && NUMV(yq[i]) == yv[i], "frame: the certified vectors are not modified");
+	}
+	REACH_END();
+}
+#elif defined(FN_basis_status_leak)
 /* C18: QSexact_basis_status (static, exact.c:1002; exported with goto-cc --export-file-local-symbols) discards the
  * stale solution cache before it re-evaluates the basis: the cache block AND the number it embeds (cache->val, a GMP
  * rational with its own heap storage -- one token in the TOKENS model) are released. */
